@@ -1,6 +1,7 @@
 """C12 - run metrics are exact."""
 import os
 import random
+import re
 
 import core
 import coqlit as L
@@ -17,6 +18,9 @@ SNIPPETS = [
     "q = 'select * from t where a=%s' % y\n", "try:\n    pass\nexcept Exception:\n    pass\n",
     "assert x  # nosec\n", "assert x  # nosec B101\n", "assert x  # nosec B999\n", "exec('x')  # nosec B101\n",
     "s = '''\n# not a comment\n\n'''\n", "import telnetlib  # nosec\n", "def f(password='p'):\n    pass\n",
+    # a specific nosec by rule name, including the two names with capitals
+    "import xml.etree.ElementTree as ET\nET.fromstring(x)  # nosec xml_bad_ElementTree\n", "import xml.etree.cElementTree as CET\nCET.parse(f)  # nosec xml_bad_cElementTree\n",
+    "assert x  # nosec assert_used\n", "import telnetlib  # nosec import_telnetlib\n",
     # several findings withheld by one comment on one line
     "import subprocess\nsubprocess.Popen('ls *', shell=True)  # nosec\n", "assert pickle.loads(x)  # nosec\n",
     "import subprocess\nsubprocess.Popen('ls *', shell=True)  # nosec B602, B607\n", "assert pickle.loads(x), exec(y)  # nosec B101,B301\n",
@@ -54,6 +58,22 @@ def finding_coq(r):
     return impl.finding_coq(r)
 
 
+def known_tests():
+    """IDs and names of every registered test, read from the registry data (not through the lookup functions)."""
+    from bandit.core import extension_loader
+    ext = extension_loader.MANAGER
+    out = set()
+    for p_ in ext.plugins:
+        out |= {p_.plugin._test_id, p_.name}
+    for rules in ext.blacklist.values():
+        for b in rules:
+            out |= {b["id"], b["name"]}
+    return out
+
+
+KNOWN_TESTS = set()
+
+
 def cli_targets(R, rng, tier):
     """The totals are the sums over the files whatever the targets are called: relative, dotted, underscored, explicit."""
     import climain
@@ -65,7 +85,7 @@ def cli_targets(R, rng, tier):
         os.makedirs(os.path.join(d, sub))
     srcs = {"_vendor/a.py": "assert a  # nosec\nimport pickle\n", "_vendor/_b.py": "exec(x)\n\n# c\n", "pkg/c.py": "assert c\nassert d  # nosec B101\n",
             "pkg/_private/d.py": "import subprocess\nsubprocess.call(x, shell=True)  # nosec\n", "__pycache__x/e.py": "assert e\n", "_top.py": "assert t  # nosec\nx = 1\n",
-            "__init__.py": "import telnetlib\n"}
+            "__init__.py": "import telnetlib\n", "pkg/zz_py2.py": "print 'python 2'\nx = 1\ny = 2\n"}
     for f, src in srcs.items():
         open(os.path.join(d, f), "w").write(src)
     target_sets = [["-r", "_vendor"], ["-r", "_vendor", "pkg"], ["-r", "./_vendor"], ["-r", "."], ["_top.py", "__init__.py"], ["-r", "pkg", "_top.py"],
@@ -108,6 +128,7 @@ def run(R, replay=None):
               "strings) x line endings LF/CRLF/CR x BOM x cookie x missing final newline; scanned singly and in groups of 1-4; "
               "per-file block and _totals compared with the Metrics model and with the statement; non-trivial = file with at "
               "least one finding or one non-code line")
+    KNOWN_TESTS.update(known_tests())
     n_groups = 120 if R.tier == "quick" else 1500
     fixed = [b"\xef\xbb\xbf# c\nx=1\n", b"", b"\n", b"#\n", b"x=1", b"\r\r\n\n", b"  #x\r\n\t\x0c\n y=1\r"]
     block_cases, total_cases = [], []
@@ -158,6 +179,33 @@ def run(R, replay=None):
                             R.violations.append({"what": "metric %s.%s=%s but %d findings of that rank were found" % (crit, r, blk.get("%s.%s" % (crit, r)), want),
                                                  "input": repr(data), "observed": blk, "signature": None})
                 withheld = len(res2) - len(res)
+                # which counter a withheld finding belongs to: 'nosec' if a comment of its lines names no known test, else 'skipped_tests'
+                exp_bare, exp_spec, classifiable = 0, 0, True
+                rep_keys = [(x["test_id"], x["lineno"], x["col"]) for x in res]
+                src_lines = data.replace(b"\r\n", b"\n").replace(b"\r", b"\n").decode("utf-8", "replace").split("\n")
+                for i2 in res2:
+                    k2 = (i2.test_id, i2.lineno, i2.col_offset)
+                    if k2 in rep_keys:
+                        rep_keys.remove(k2)
+                        continue
+                    lines_of = sorted(set(i2.linerange) | {i2.lineno})
+                    kinds = []
+                    for ln in lines_of:
+                        if 1 <= ln <= len(src_lines):
+                            m_ = re.search(r"#\s*nosec\b:?(.*)$", src_lines[ln - 1])
+                            if m_:
+                                toks = [t for t in re.split(r"[\s,]+", m_.group(1).split("#")[0]) if t]
+                                known = [t for t in toks if t in KNOWN_TESTS]
+                                kinds.append("specific" if known else "bare")
+                    if not kinds or len(set(kinds)) > 1:
+                        classifiable = False
+                    elif kinds[0] == "bare":
+                        exp_bare += 1
+                    else:
+                        exp_spec += 1
+                if classifiable and (blk["nosec"], blk["skipped_tests"]) != (exp_bare, exp_spec):
+                    R.violations.append({"what": "nosec=%d skipped_tests=%d but %d findings are withheld by bare comments and %d by comments naming tests" % (
+                        blk["nosec"], blk["skipped_tests"], exp_bare, exp_spec), "input": repr(data), "observed": blk, "signature": None})
                 if blk["nosec"] + blk["skipped_tests"] != withheld:
                     R.violations.append({"what": "nosec+skipped_tests=%d but %d findings were withheld" % (blk["nosec"] + blk["skipped_tests"], withheld),
                                          "input": repr(data), "observed": blk, "signature": None})
